@@ -133,7 +133,7 @@ func khParse(op string) (*khCase, bool) {
 			kv[t[:i]] = t[i+1:]
 		}
 	}
-	if kv["side"] != "http" && kv["side"] != "ctxw" && kv["side"] != "srvw" && kv["side"] != "shttp" {
+	if kv["side"] != "http" && kv["side"] != "ctxw" && kv["side"] != "srvw" && kv["side"] != "shttp" && kv["side"] != "ssec" && kv["side"] != "sses" {
 		return nil, false
 	}
 	c := &khCase{side: kv["side"], pv: kv["pv"]}
@@ -651,7 +651,9 @@ func TestVerifKeepAliveHTTP(t *testing.T) {
 	emit := func(prefix string, c *khCase) {
 		id := fmt.Sprintf("%s%d", prefix, n)
 		var obs string
-		if c.side == "shttp" {
+		if c.side == "ssec" || c.side == "sses" {
+			obs = khRunSSE(t, c)
+		} else if c.side == "shttp" {
 			obs = khRunSrvHTTP(t, c)
 		} else if c.side == "ctxw" || c.side == "srvw" {
 			obs = khRunCtx(t, c)
@@ -668,7 +670,7 @@ func TestVerifKeepAliveHTTP(t *testing.T) {
 		}
 		for _, ln := range strings.Split(string(b), "\n") {
 			ln = strings.TrimSpace(ln)
-			if !strings.HasPrefix(ln, "kas ") || !(strings.Contains(ln, " side=http ") || strings.Contains(ln, " side=ctxw ") || strings.Contains(ln, " side=srvw ") || strings.Contains(ln, " side=shttp ")) {
+			if !strings.HasPrefix(ln, "kas ") || !(strings.Contains(ln, " side=http ") || strings.Contains(ln, " side=ctxw ") || strings.Contains(ln, " side=srvw ") || strings.Contains(ln, " side=shttp ") || strings.Contains(ln, " side=ssec ") || strings.Contains(ln, " side=sses ")) {
 				continue // the other lines belong to the streams `loop` and `sessions`
 			}
 			c, ok := khParse(ln)
@@ -812,6 +814,42 @@ func TestVerifKeepAliveHTTP(t *testing.T) {
 			}
 		}
 	}
+	if os.Getenv("VERIF_CASES") == "" {
+		// the real SSE transports: every pattern of length 1..3 over {answered in time, lost, -32603, and — client
+		// side — the POST stalls until the ping's context ends / — server side — answered too late} followed by two
+		// answers, x thresholds 0..3 x keep-alive on the client / on the server; -32601 as the first reply
+		const I = 1000
+		for _, side := range []string{"ssec", "sses"} {
+			for l, total := 1, 4; l <= 3; l, total = l+1, total*4 {
+				for code := 0; code < total; code++ {
+					for T := 0; T <= 3; T++ {
+						var w []khStep
+						for i, cd := 0, code; i < l; i, cd = i+1, cd/4 {
+							k := []khStep{{'j', int64(3 + 4*i), 0}, {kind: 'n'}, {'x', int64(5 + 2*i), 0}, {kind: 'w'}}[cd%4]
+							if k.kind == 'w' && side == "sses" {
+								k = khStep{'j', I/2 + 57, 0}
+							}
+							w = append(w, k)
+						}
+						w = append(w, khStep{'j', 11, 0}, khStep{'j', 5, 0})
+						c := &khCase{side: side, I: I, T: T, wire: w, pv: []string{protocolVersion20251125, protocolVersion20250618}[(T+l)%2]}
+						c.derive()
+						c.tc = kaAfter(I, c.script)
+						emit("e", c)
+					}
+				}
+			}
+			for _, d := range []int64{3, I/2 + 101} {
+				for T := 0; T <= 2; T++ {
+					w := []khStep{{'j', 7, 0}, {'J', d, 0}, {kind: 'n'}, {'j', 9, 0}}
+					c := &khCase{side: side, I: I, T: T, wire: w, pv: protocolVersion20251125}
+					c.derive()
+					c.tc = kaAfter(I, c.script)
+					emit("e", c)
+				}
+			}
+		}
+	}
 	rng := verifRng(1313)
 	nr := verifN(600, 8000)
 	for i := 0; i < nr; i++ {
@@ -825,6 +863,17 @@ func TestVerifKeepAliveHTTP(t *testing.T) {
 		}
 		if i%4 == 1 {
 			emit("g", khRandomSrvHTTP(rng, 8, 4))
+		}
+		if i%4 == 2 {
+			c := khRandomCtx(rng, 8, 4) // kinds j, J, x, n, w, R
+			c.side = []string{"ssec", "sses"}[rng.Intn(2)]
+			for j := range c.wire {
+				if c.wire[j].kind == 'R' || (c.wire[j].kind == 'w' && c.side == "sses") {
+					c.wire[j] = khStep{kind: 'n'}
+				}
+			}
+			c.derive()
+			emit("e", c)
 		}
 	}
 }
